@@ -41,6 +41,8 @@ def shards(tier, seed):
 		dict(name='annotated-list-strids', path='list', nsig=8, size=30, comp=None, ids='str'),
 		dict(name='annotated-list-empty-meta', path='list', nsig=4, size=30, comp=None, ids='str', meta='empties'),
 		dict(name='wrapped-array-none-meta', path='wrapped-array', nsig=4, size=30, comp=None, meta='nones'),
+		dict(name='re-annotated-wrapper', path='list', nsig=5, size=30, comp=None, ids='str', nested='wrapper'),
+		dict(name='re-annotated-file', path='list', nsig=5, size=30, comp=None, nested='file'),
 		dict(name='file-to-file-copy', path='list', nsig=9, size=40, comp=None, ids='str', source='file'),
 		dict(name='file-to-file-copy-gzip', path='list', nsig=9, size=40, comp='gzip', source='file'),
 		dict(name='medium-list', path='list', nsig=120, size=400, comp=None),
@@ -101,6 +103,16 @@ def build_payload(p):
 		ids, meta, obj = list(range(len(sigs))), SignaturesMeta(), base
 	else:
 		obj = AnnotatedSignatures(base, ids, meta)
+	if p.get('nested'):
+		# the collection already carries OTHER ids and metadata one level down (a wrapper, or a signature file on disk)
+		from gambit.sigs.base import dump_signatures, load_signatures
+		inner = AnnotatedSignatures(base, [f'old-{i}' for i in range(len(sigs))] if not isinstance(ids[0], str) else list(range(700, 700 + len(sigs))),
+		                            SignaturesMeta(id='old-set', name='old', version='0.1', id_attr='refseq_acc', description='old', extra={'old': True}))
+		if p['nested'] == 'file':
+			src = os.path.join(p['_workdir'], f'source-{p["name"]}.gs')
+			dump_signatures(src, inner)
+			inner = load_signatures(src)
+		obj = AnnotatedSignatures(inner, ids, meta)
 	if p.get('source') == 'file':
 		# the collection being written is itself a signature file on disk (file -> file copy, e.g. re-compressing a database)
 		from gambit.sigs.base import dump_signatures, load_signatures
